@@ -680,7 +680,8 @@ func runC08(c *wk.Ctx) {
 		jobs = append(jobs, job{ti, c08Fault{kind: rig.FaultNone, failWrites: -1}, "no-fault"})
 		for k := int64(0); k <= total; k++ {
 			inHello := k < helloEnd-1
-			if bound[k] || k == 0 || k == helloEnd/4 || k == helloEnd/2 || (k > helloEnd && k%7 == 3) {
+			helloTimeouts := t.name == "v3-one-run" || t.name == "v1-two-serial" // the handshake is the same in every transcript
+			if (k >= helloEnd && (bound[k] || k%7 == 3)) || (helloTimeouts && (bound[k] || k == 0 || k == helloEnd/4 || k == helloEnd/2)) {
 				// an expired read deadline: the error says Timeout() == true and comes back on every later read
 				jobs = append(jobs, job{ti, c08Fault{kind: rig.FaultReadTimeout, at: k, failWrites: -1}, "cut"})
 			}
